@@ -430,6 +430,9 @@ class Gen:
             n = r.choice([0, 1, 1, 2, 3])
             if f == "return":
                 n = min(n, 1)
+            if f == "go":
+                # `go` takes a frame number / label (or one of the words loop, next, previous: generated separately)
+                return ["call", f, r.choice([["i", r.choice([1, 5, 20])], ["s", S("square")], self.leaf(env, "loc")])]
             return ["call", f] + [self.expr(env, depth) for _ in range(n)]
         if c < 0.94:
             return ["mcall", self.receiver(env), r.choice(METHODS)] + [self.expr(env, depth) for _ in range(r.choice([0, 1, 2]))]
